@@ -192,7 +192,9 @@ def run_tlc(module: str, cfg: Path, scratch: Path, *, workers: int | str = 1, en
         (simulate is not None and not res.errors and not res.violated and p.returncode == 0)
     res.ok = finished and not res.violated and not res.errors
     if res.errors or (not finished and not res.violated):
-        tail = "\n".join(out.splitlines()[-40:])
+        lines = out.splitlines()
+        first = next((i for i, ln in enumerate(lines) if ln.startswith("Error:")), max(len(lines) - 40, 0))
+        tail = "\n".join(lines[first:first + 25] + ["..."] + lines[-6:])
         raise TLCError(f"TLC failed on {module} (rc={p.returncode}):\n{tail}")
     if res.violated and not allow_violation:
         tail = "\n".join(out.splitlines()[-60:])
